@@ -575,6 +575,22 @@ Proof.
       * destruct HF as [Z1 _]. split; [exact Z1|intros X; discriminate X].
   - intros H. destruct (root _ _ _) as [r rl]. injection H as <- _. exact Hb.
   - destruct l; intros H; injection H as <- _; exact Hb.
+  - (* reopen *)
+    intros H. injection H as <- _. cbn [st_w st_h w_dst w_set_dst].
+    assert (Hn : nsegs (mkBM AMulti (map (fun d => mkBS d (zlen d)) (bm_data (w_dst (st_w st)))) [] (init_rlimit (e_cfgd e)))
+                 = nsegs (w_dst (st_w st))).
+    { unfold nsegs, bm_data. cbn [bm_segs]. now rewrite !zlen_map. }
+    split.
+    + split.
+      * unfold bmsg_wf. cbn [bm_segs]. apply Forall_forall. intros s Hs. apply in_map_iff in Hs.
+        destruct Hs as (d & <- & Hd). unfold bm_data in Hd. apply in_map_iff in Hd. destruct Hd as (b & <- & Hbs).
+        destruct Hi as [Hw0 _]. unfold bmsg_wf in Hw0. rewrite Forall_forall in Hw0. destruct (Hw0 b Hbs) as [_ H8].
+        unfold seg_wf, blen in *. cbn [bs_data bs_cap]. lia.
+      * unfold arena_wf. cbn [bm_arena]. discriminate.
+    + apply Forall_forall. intros h Hin. apply in_map_iff in Hin. destruct Hin as ([l0 p0] & <- & Hin0).
+      rewrite Forall_forall in Hh. specialize (Hh _ Hin0). cbn [fst].
+      destruct l0; [apply hp_null|]. unfold hk in *. cbn [fst snd] in *.
+      eapply hp_mono; [|exact Hh]. cbn [st_w w_dst w_set_dst]. rewrite Hn. lia.
 Qed.
 
 (* ------------------------------------------------------------------ initial states *)
